@@ -217,6 +217,22 @@ class Model:
 
         return (vjp, self._chol(q)) if self.with_aux else vjp
 
+    # a Cholesky factor with NEGATIVE diagonal entries (legal: L L^T is the same positive definite matrix)
+    def metric_chol_neg(self, q):
+        f = self._enter("metric_func")
+        return self._poison(-self._chol(q), f)
+
+    def vjp_metric_chol_neg(self, q):
+        self._enter("vjp_metric_func")
+        q = np.array(q)
+
+        def vjp(v):
+            out = np.diag(v) * q
+            out[0] += 0.3 * v[1, 0]
+            return -out
+
+        return (vjp, -self._chol(q)) if self.with_aux else vjp
+
     def _dense(self, q):
         return np.diag(1.0 + q**2) + 0.2 * np.ones((self.n, self.n))
 
@@ -287,6 +303,10 @@ def make_system(kind, model: Model, *, metric="dense", flavour="diag"):
         if flavour == "chol":
             return S.CholeskyFactoredRiemannianMetricSystem(model.neg_log_dens, model.metric_chol,
                                                             vjp_metric_chol_func=model.vjp_metric_chol,
+                                                            grad_neg_log_dens=model.grad_neg_log_dens)
+        if flavour == "cholneg":
+            return S.CholeskyFactoredRiemannianMetricSystem(model.neg_log_dens, model.metric_chol_neg,
+                                                            vjp_metric_chol_func=model.vjp_metric_chol_neg,
                                                             grad_neg_log_dens=model.grad_neg_log_dens)
         if flavour == "dense":
             return S.DenseRiemannianMetricSystem(model.neg_log_dens, model.metric_dense,
